@@ -759,7 +759,9 @@ func (val Value) Modulo(other Value) Value {
 
 	// We cheat a bit here with infinities, just abusing the Multiply operation
 	// to get an infinite result of the correct sign.
-	if val == PositiveInfinity || val == NegativeInfinity || other == PositiveInfinity || other == NegativeInfinity {
+	// (RawEquals rather than ==: an infinity that was computed, e.g. by a
+	// division by zero, is not the same Go value as the package-level ones.)
+	if val.RawEquals(PositiveInfinity) || val.RawEquals(NegativeInfinity) || other.RawEquals(PositiveInfinity) || other.RawEquals(NegativeInfinity) {
 		return val.Multiply(other)
 	}
 
